@@ -4,7 +4,7 @@ import json,os,re,sys
 root=os.path.dirname(os.path.dirname(os.path.abspath(__file__)))
 s=open(root+'/DESIGN.md').read()
 metas=[]
-for d in sorted(os.listdir(root+'/seeded')):
+for d in sorted(x for x in os.listdir(root+'/seeded') if not x.startswith('_')):
     p=root+'/seeded/%s/meta.json'%d
     if os.path.exists(p): metas.append(json.load(open(p)))
 rows=[]
